@@ -39,6 +39,8 @@ def elfLine (toks : List String) : IO String := do
       s!"ok er={erLine l.er} exit={toHex (l.exitAddr.getD 0)} dram={dram} other=0"
   -- Spec
   let wf := Spec.Elf.wellFormed f && Spec.Elf.layoutOk f args
+  -- C11 does not ask for p_paddr = p_vaddr: whatever is placed after the image may then start up to physSlack higher
+  let wf11 := Spec.Elf.wellFormedFor false f && Spec.Elf.layoutOkSlack (Spec.Elf.physSlack f + 8) f args
   let e := Spec.Elf.expected f args
   let dram := dumpBlocks (fun a => e.mem.getD a 0) (e.mem.toList.map (·.1))
   let ers := erLine [(0, e.er0), (1, e.er1), (2, e.er2), (5, e.er5), (7, e.er7)]
@@ -46,6 +48,6 @@ def elfLine (toks : List String) : IO String := do
   let trailing := match phs.getLast? with | some p => p.ty != 1 | none => false
   let shape := s!"loads{(Spec.Elf.loads f).length}-ph{phs.length}{if trailing then "-trailnonload" else ""}"
   let kf := if trailing then "LAST-PHDR" else "-"
-  pure s!"M {m} | S ok er={ers} exit={toHex (e.exit.getD 0)} dram={dram} other=0 dom={if wf then 1 else 0} kf={kf} imgend={toHex ((Spec.Elf.BASE + Spec.Elf.imageEnd f + 63) / 64 * 64)} shape={shape}"
+  pure s!"M {m} | S ok er={ers} exit={toHex (e.exit.getD 0)} dram={dram} other=0 dom={if wf then 1 else 0} dom11={if wf11 then 1 else 0} imgx={toHex (Spec.Elf.BASE + Spec.Elf.imageEnd f)} phys={if Spec.Elf.physSlack f == 0 then "same" else "shifted"} kf={kf} imgend={toHex ((Spec.Elf.BASE + Spec.Elf.imageEnd f + 63) / 64 * 64)} shape={shape}"
 
 end H8.Drv
